@@ -213,19 +213,26 @@ Proof.
 Qed.
 
 (** ... which cannot happen when the initialisation runs at load time: every fork then finds the handlers registered *)
+Lemma step_keeps_registered hs s t l s' : inited s = true -> (forall u reg, pcs s u = F2 reg -> reg = true) ->
+  step hs t s = Next l s' -> inited s' = true /\ forall u reg, pcs s' u = F2 reg -> reg = true.
+Proof.
+  intros IHi IHr Hs.
+  assert (Hi' : inited s' = true).
+  { unfold step, lock_then, unlock_then, set_pc, set_mtx in Hs. step_cases Hs; try discriminate; injection Hs as <- <-; sfields; auto. }
+  split; [assumption|]. intros u reg Hp.
+  destruct (Nat.eq_dec u t) as [->|Hu].
+  - unfold step, lock_then, unlock_then, set_pc, set_mtx in Hs.
+    destruct (pcs s t) eqn:E; step_cases Hs; try discriminate; injection Hs as <- <-; cbn [pcs] in Hp; rewrite upd_same in Hp;
+      try discriminate; injection Hp as <-; try reflexivity; try assumption; try (eapply IHr; eassumption).
+  - destruct (step_frame hs t s l s' Hs u Hu) as [Hpc _]. rewrite Hpc in Hp. eapply IHr; eassumption.
+Qed.
+
 Lemma preinit_always_registered hs progs s : parent_ok hs = true -> h_preinit hs = true -> reachable hs progs s ->
   inited s = true /\ forall t reg, pcs s t = F2 reg -> reg = true.
 Proof.
   intros Hpar Hpre R. induction R as [|s t l s' R [IHi IHr] Hs].
   - split; [exact Hpre|]. intros t reg H. discriminate.
-  - assert (Hi' : inited s' = true).
-    { unfold step, lock_then, unlock_then, set_pc, set_mtx in Hs. step_cases Hs; try discriminate; injection Hs as <- <-; sfields; auto. }
-    split; [assumption|]. intros u reg Hp.
-    destruct (Nat.eq_dec u t) as [->|Hu].
-    + unfold step, lock_then, unlock_then, set_pc, set_mtx in Hs.
-      destruct (pcs s t) eqn:E; step_cases Hs; try discriminate; injection Hs as <- <-; cbn [pcs] in Hp; rewrite upd_same in Hp;
-        try discriminate; injection Hp as <-; try reflexivity; try assumption; try (eapply IHr; eassumption).
-    + destruct (step_frame hs t s l s' Hs u Hu) as [Hpc _]. rewrite Hpc in Hp. eapply IHr; eassumption.
+  - eapply step_keeps_registered; eassumption.
 Qed.
 
 (** *** the process tree: the first process and every child of a fork that found the handlers registered *)
@@ -243,6 +250,27 @@ Section Tree.
   Lemma treachable_inv s : treachable s -> Inv hs s.
   Proof.
     induction 1 as [|s t l s' _ IH Hs|s t _ IH Hp]; [apply inv_init|eapply step_inv; eassumption|now apply child_inv].
+  Qed.
+
+  (** with load-time initialisation EVERY process of the tree (children created by ANY fork included) satisfies the
+      invariant, is initialised, and all its forks find the handlers registered *)
+  Lemma preachable_good : h_preinit hs = true -> forall s, preachable hs progs s ->
+    Inv hs s /\ inited s = true /\ forall t reg, pcs s t = F2 reg -> reg = true.
+  Proof.
+    intros Hpre s R. induction R as [|s t l s' R [IHv [IHi IHr]] Hs|s t reg R [IHv [IHi IHr]] Hp].
+    - split; [apply inv_init|]. split; [exact Hpre|]. intros t reg H. discriminate.
+    - split; [eapply step_inv; eassumption|]. eapply step_keeps_registered; eassumption.
+    - assert (reg = true) by (eapply IHr; eassumption). subst reg.
+      split; [now apply child_inv|]. rewrite child_clean by assumption. cbn [inited pcs]. split; [assumption|]. intros u reg H. discriminate.
+  Qed.
+
+  Theorem child_completes_always s t reg ops rest : h_preinit hs = true -> preachable hs progs s ->
+    pcs s t = F2 reg -> todo s t = Call ops :: rest ->
+    exists c', run_alone hs (6 + body_steps ops) t (child_of hs s t reg) = Some c' /\ pcs c' t = Out /\ todo c' t = rest
+               /\ repo c' = [] /\ cnt c' = 0 /\ mtx c' = None.
+  Proof.
+    intros Hpre R Hp Ht. destruct (preachable_good Hpre s R) as [I [_ Hr]].
+    assert (reg = true) by (eapply Hr; eassumption). subst reg. now apply child_completes.
   Qed.
 
   (** children of children included *)
